@@ -63,7 +63,11 @@ def parseOp (j : Json) : R Op := do
       (← jOptNat j "nh") (← jOptNat j "na") (← jUD j "ud") (← jNatListList (← fld j "rand"))
   | "mkModule" =>
     return .mkModule (← jNat (← fld j "mslot")) (← jNetKind (← fld j "k")) (← jNat (← fld j "nv"))
-      (← jOptNat j "nh") (← jOptNat j "na") (← jNatList (← fld j "rand"))
+      (← jOptNat j "nh") (← jOptNat j "na") (match fldOpt j "zw" with | some (.bool b) => b | _ => false)
+      (← jNatList (← fld j "rand"))
+  | "initModule" =>
+    return .initModule (← jNat (← fld j "mslot")) (match fldOpt j "zw" with | some (.bool b) => some b | _ => none)
+      (← jNatList (← fld j "rand"))
   | "constructFrom" =>
     return .constructFrom (← jNat (← fld j "slot")) (← jKind (← fld j "kind")) (← jNat (← fld j "mslot")) (← jUD j "ud")
   | "write" => return .write (← jNat (← fld j "slot")) (← jStr (← fld j "net")) (← jNatList (← fld j "toks"))
